@@ -25,6 +25,37 @@ var (
 
 func pickU(r *hx.RNG, xs []uint32) uint32 { return xs[r.Intn(len(xs))] }
 
+// randOther: a valid code of the attributes only Compare reads (AS_PATH contents among them)
+func randOther(r *hx.RNG, aslen uint32) uint32 {
+	e := Extras{Comm: uint32(r.Intn(3)), LComm: uint32(r.Intn(2)), Unk: uint32(r.Intn(2)), Atomic: uint32(r.Intn(2)),
+		Aggr: uint32(r.Intn(3)), ASV: uint32(r.Intn(4))}
+	if r.Chance(50) { // mostly vary the AS_PATH contents only
+		e = Extras{ASV: e.ASV}
+	}
+	if aslen == 0 && e.ASV > 2 {
+		e.ASV = uint32(r.Intn(3))
+	}
+	return e.Code()
+}
+
+// fixOther keeps Other valid after a change of the AS_PATH length
+func fixOther(d *PD) {
+	if d.Kind == 'b' && d.ASLen == 0 {
+		e := d.Extras()
+		if e.ASV > 2 {
+			e.ASV = 1
+			d.Other = e.Code()
+		}
+	}
+}
+
+func randIgn(r *hx.RNG) uint32 {
+	if r.Chance(60) {
+		return 0
+	}
+	return uint32(r.Intn(32))
+}
+
 func setCL(d *PD, i int) {
 	if i == 0 {
 		d.CLNil, d.CL = true, nil
@@ -42,7 +73,11 @@ func SmallBGP(r *hx.RNG, late int) PD {
 	d.BGPID, d.OrigID = pickU(r, dID), pickU(r, dOID)
 	setCL(&d, r.Intn(len(dCL)))
 	d.Src, d.NH = dSrc[r.Intn(len(dSrc))], dNH[r.Intn(len(dNH))]
-	d.PathID, d.Other = uint32(r.Intn(2)), uint32(r.Intn(2))
+	d.PathID = uint32(r.Intn(2))
+	if r.Chance(60) {
+		d.Other = randOther(r, d.ASLen)
+	}
+	d.Ign = randIgn(r)
 	return d
 }
 
@@ -68,15 +103,16 @@ func WideBGP(r *hx.RNG) PD {
 		}
 	}
 	d.Src, d.NH = wideIP(r), wideIP(r)
-	d.PathID, d.Other = pickU(r, wideU), uint32(r.Intn(2))
+	d.PathID, d.Other, d.Ign = pickU(r, wideU), randOther(r, d.ASLen), randIgn(r)
 	return d
 }
 
 func Static(r *hx.RNG) PD {
+	ign := randIgn(r) &^ 3 // OTC and BMPPostPolicy live in the BGP path
 	if r.Chance(80) {
-		return PD{Kind: 's', NH: dNH[r.Intn(len(dNH))]}
+		return PD{Kind: 's', NH: dNH[r.Intn(len(dNH))], Ign: ign}
 	}
-	return PD{Kind: 's', NH: wideIP(r)}
+	return PD{Kind: 's', NH: wideIP(r), Ign: ign}
 }
 
 // Mutate changes one attribute the decision process (or Compare) reads
@@ -85,11 +121,16 @@ func Mutate(r *hx.RNG, d PD) PD {
 		return Static(r)
 	}
 	d.CL = append([]uint32{}, d.CL...)
-	switch r.Intn(12) {
+	switch r.Intn(16) {
+	case 12, 13, 14: // AS_PATH contents / other attributes the decision process must not read
+		d.Other = randOther(r, d.ASLen)
+	case 15:
+		d.Ign = uint32(r.Intn(32))
 	case 0:
 		d.LP = pickU(r, dLP)
 	case 1:
 		d.ASLen = pickU(r, dLen)
+		fixOther(&d)
 	case 2:
 		d.Origin = pickU(r, dOrg)
 	case 3:
@@ -109,7 +150,7 @@ func Mutate(r *hx.RNG, d PD) PD {
 	case 10:
 		d.PathID = uint32(r.Intn(2))
 	case 11:
-		d.Other = uint32(r.Intn(2))
+		d.Other = randOther(r, d.ASLen)
 	}
 	return d
 }
@@ -190,6 +231,35 @@ func EarlyDomain() []PD {
 						}
 					}
 				}
+			}
+		}
+	}
+	return out
+}
+
+// MEDDomain: MED against every later step, with AS_PATHs of equal length and different contents
+// (different neighbour AS, leading AS_SET): MED is compared whatever the neighbour AS is
+func MEDDomain() []PD {
+	var out []PD
+	for _, m := range dMED {
+		for asv := uint32(0); asv < 4; asv++ {
+			for _, e := range []bool{false, true} {
+				for _, id := range []uint32{1, 2} {
+					for _, s := range []uint64{1, 2} {
+						d := PD{Kind: 'b', LP: 100, ASLen: 2, MED: m, EBGP: e, BGPID: id, CLNil: true,
+							Src: IPD{0, s, true}, NH: IPD{0, 1, true}, Other: Extras{ASV: asv}.Code()}
+						out = append(out, d)
+					}
+				}
+			}
+		}
+	}
+	// empty AS_PATHs in their three shapes
+	for _, m := range dMED {
+		for asv := uint32(0); asv < 3; asv++ {
+			for _, id := range []uint32{1, 2} {
+				out = append(out, PD{Kind: 'b', LP: 100, ASLen: 0, MED: m, BGPID: id, CLNil: true,
+					Src: IPD{0, 1, true}, NH: IPD{0, 1, true}, Other: Extras{ASV: asv}.Code()})
 			}
 		}
 	}
@@ -332,6 +402,12 @@ func Main(prop string) {
 				run.Pair(fmt.Sprintf("xe%d-%d", i, j), a, b)
 			}
 		}
+		medd := MEDDomain()
+		for i, a := range medd {
+			for j, b := range medd {
+				run.Pair(fmt.Sprintf("xm%d-%d", i, j), a, b)
+			}
+		}
 		for i := 0; i < n; i++ {
 			a, b := RandomPair(rng.Fork(uint64(i)))
 			run.Pair(fmt.Sprintf("p%d", i), a, b)
@@ -354,6 +430,15 @@ func Main(prop string) {
 			dom = LateDomain([]uint32{1, 2}, []uint32{0}, []int{0, 1, 2, 3}, []uint64{1, 2, 3}, []uint64{1})
 		}
 		dom = append(dom, PD{Kind: 's', NH: IPD{0, 1, true}}, PD{Kind: 's', NH: IPD{0, 2, true}})
+		// MED against the later steps with different neighbour ASes (the classic source of cyclic preference)
+		for _, m := range dMED {
+			for _, asv := range []uint32{0, 1} {
+				for _, id := range []uint32{1, 2} {
+					dom = append(dom, PD{Kind: 'b', LP: 100, ASLen: 1, MED: m, BGPID: id, CLNil: true,
+						Src: IPD{0, 1, true}, NH: IPD{0, 1, true}, Other: Extras{ASV: asv}.Code()})
+				}
+			}
+		}
 		for i, a := range dom {
 			for j, b := range dom {
 				for k, c := range dom {
